@@ -214,6 +214,7 @@ type c29exec struct {
 	failedDst  int
 	failedSrc  int
 	closedOK   bool // final graceful shutdown flushed the buffer
+	traces     map[string]*execTrace
 	harnessErr string
 }
 
@@ -474,6 +475,7 @@ func execC29(p *C29Plan, cfg simrt.Config, root string) *c29exec {
 			fail("node died during observation")
 		}
 		ex.failedDst, ex.failedSrc = n.fb.FailedDst, n.fb.FailedSrc
+		ex.traces = n.logs.tr
 	})
 	if n != nil {
 		if n.up && n.cqh != nil {
@@ -614,12 +616,24 @@ func runC29(planAny any, cfg simrt.Config) *simkit.Outcome {
 			// successful execution committed before it selects; a different start
 			// means it selected before that one committed (or started somewhere else)
 			serial := s == prev.End.Unix()
+			// did it select its window while an earlier-committed successful
+			// execution was still in flight? (handler log times)
+			inFlight := false
+			if tx := ex.traces[e.ExecID]; tx != nil {
+				for _, y := range done {
+					if ty := ex.traces[y.ExecID]; ty != nil && ty.done && ty.doneNs > tx.selectNs {
+						inFlight = true
+					}
+				}
+			}
 			cause := func(explicitMoved bool) string {
 				switch {
 				case !serial && startedAtFailedEnd(s):
 					return "after-failed-execution"
-				case !serial:
+				case !serial && inFlight:
 					return "concurrent-executions"
+				case !serial:
+					return "start-is-not-end-of-previous-successful-execution"
 				case explicitMoved:
 					return "after-manual-execution-with-explicit-range"
 				case concurrentSeen:
